@@ -10,7 +10,7 @@
 //	    -> <id> <full decode of the resulting word> | <id> none
 //	gvh-limits lim   : the REAL ircomp.ConstantCompiler on tiny hand-built IR, one request per line
 //	    <id> ra <isCell bits> <ops: T<r> R<r> U<r> ...>   register allocator history
-//	    <id> const <n> <k,k,..> | clos <n> <k,k,..> | etc <i> | fill <i> | cltrunc <h> | jump <kind> <from> <to>
+//	    <id> const <n> <k,k,..> | clos <n> <k,k,..> | etc <i> | fill <i> | cltrunc <h> | jump <kind> <from> <to> <len>
 //	    -> <id> E <word>.. | C | P | T <word>
 //	gvh-limits lua   : hx.LuaEngine
 package main
@@ -34,7 +34,7 @@ import (
 
 // codelen: <id> <hex source> -> <id> <max number of opcodes of one function> <number of constants> | <id> err
 // (compiles with the real pipeline; used to decide whether a program is beyond the int16 code limit)
-func codelenEngine(in *bufio.Scanner, out *bufio.Writer) {
+func codelenEngine(in *bufio.Scanner, out *bufio.Writer, dump bool) {
 	for in.Scan() {
 		f := strings.Fields(in.Text())
 		if len(f) < 2 {
@@ -62,7 +62,30 @@ func codelenEngine(in *bufio.Scanner, out *bufio.Writer) {
 					}
 				}
 			}
-			fmt.Fprintln(out, f[0], max, len(u.Constants))
+			if !dump {
+				fmt.Fprintln(out, f[0], max, len(u.Constants))
+				return
+			}
+			// dump: K<kinds> F<start>,<end>,<regs>,<cells>;.. W<words>  (input of the model's check_code)
+			var kinds, fns, ws strings.Builder
+			for _, k := range u.Constants {
+				if c, ok := k.(code.Code); ok {
+					kinds.WriteByte('c')
+					if fns.Len() > 0 {
+						fns.WriteByte(';')
+					}
+					fmt.Fprintf(&fns, "%x,%x,%x,%x", c.StartOffset, c.EndOffset, c.RegCount, c.CellCount)
+				} else {
+					kinds.WriteByte('o')
+				}
+			}
+			for i, w := range u.Code {
+				if i > 0 {
+					ws.WriteByte(',')
+				}
+				fmt.Fprintf(&ws, "%x", uint32(w))
+			}
+			fmt.Fprintf(out, "%s K%s F%s W%s\n", f[0], kinds.String(), fns.String(), ws.String())
 		}()
 	}
 }
@@ -255,24 +278,37 @@ func limEngine(in *bufio.Scanner, out *bufio.Writer) {
 			}
 			fmt.Fprintln(out, line)
 		case "const", "clos":
+			// n loads spread over m = ceil(n/30000) child functions (a function may not exceed 32767
+			// opcodes): constant 0 is the main function, 1..m the children, m+j the j-th loaded constant
 			n := int(hexi(f[2]))
 			at := ints(f[3])
-			regs := []ir.RegData{{}}
-			instrs := make([]ir.Instruction, n)
-			extra := make([]ir.Constant, n)
-			for j := 0; j < n; j++ {
-				if f[1] == "const" {
-					extra[j] = ir.Float(float64(j) + 0.5)
-					instrs[j] = ir.LoadConst{Dst: 0, Kidx: uint(j + 1)}
-				} else {
-					extra[j] = ir.Code{Name: strconv.Itoa(j)}
-					instrs[j] = ir.MkClosure{Dst: 0, Code: uint(j + 1)}
-				}
+			const chunk = 30000
+			m := (n + chunk - 1) / chunk
+			extra := make([]ir.Constant, 0, m+n)
+			main := ir.Code{Registers: []ir.RegData{{}}}
+			for c := 0; c < m; c++ {
+				extra = append(extra, nil) // placeholder for child c (constant index c+1)
+				main.Instructions = append(main.Instructions, ir.MkClosure{Dst: 0, Code: uint(c + 1)})
 			}
-			u, err, pan := compileCode(ir.Code{Instructions: instrs, Registers: regs}, extra)
+			for c := 0; c < m; c++ {
+				child := ir.Code{Name: "child", Registers: []ir.RegData{{}}}
+				for j := c * chunk; j < n && j < (c+1)*chunk; j++ {
+					kidx := uint(m + 1 + j)
+					if f[1] == "const" {
+						extra = append(extra, ir.Float(float64(j)+0.5))
+						child.Instructions = append(child.Instructions, ir.LoadConst{Dst: 0, Kidx: kidx})
+					} else {
+						extra = append(extra, ir.Code{Name: strconv.Itoa(j)})
+						child.Instructions = append(child.Instructions, ir.MkClosure{Dst: 0, Code: kidx})
+					}
+				}
+				child.Lines = make([]int, len(child.Instructions))
+				extra[c] = child
+			}
+			u, err, pan := compileCode(main, extra)
 			pos := make([]int, len(at))
 			for i, k := range at {
-				pos[i] = k - 1 // the j-th instruction carries constant index j+1 (index 0 is the function itself)
+				pos[i] = m + k - 1 // main has m opcodes, then the children's loads in order
 			}
 			fmt.Fprintln(out, result(id, u, err, pan, pos))
 		case "etc", "fill", "cltrunc":
@@ -291,7 +327,7 @@ func limEngine(in *bufio.Scanner, out *bufio.Writer) {
 			fmt.Fprintln(out, result(id, u, err, pan, []int{0}))
 		case "jump":
 			kind := f[2]
-			from, to := int(hexi(f[3])), int(hexi(f[4]))
+			from, to, ln := int(hexi(f[3])), int(hexi(f[4])), int(hexi(f[5]))
 			regs := []ir.RegData{{}}
 			var jmp ir.Instruction
 			switch kind {
@@ -304,12 +340,8 @@ func limEngine(in *bufio.Scanner, out *bufio.Writer) {
 			}
 			filler := ir.LoadConst{Dst: 0, Kidx: nilK}
 			var instrs []ir.Instruction
-			addr := 0
-			top := from
-			if to > top {
-				top = to
-			}
-			for addr <= top {
+			// a function of exactly ln opcodes: the jump at address from, the label at address to (<= ln)
+			for addr := 0; addr < ln; addr++ {
 				if addr == to {
 					instrs = append(instrs, ir.DeclareLabel{Label: 7})
 				}
@@ -318,7 +350,9 @@ func limEngine(in *bufio.Scanner, out *bufio.Writer) {
 				} else {
 					instrs = append(instrs, filler)
 				}
-				addr++
+			}
+			if to == ln {
+				instrs = append(instrs, ir.DeclareLabel{Label: 7})
 			}
 			u, err, pan := compileCode(ir.Code{Instructions: instrs, Registers: regs}, []ir.Constant{ir.NilType{}})
 			if pan != nil || err != nil {
@@ -352,7 +386,9 @@ func main() {
 	case "lim":
 		limEngine(in, out)
 	case "codelen":
-		codelenEngine(in, out)
+		codelenEngine(in, out, false)
+	case "dump":
+		codelenEngine(in, out, true)
 	case "lua":
 		// GVH_MAXSTACK=<bytes>: lower Go's per-goroutine stack limit (default 1 GB) so that
 		// unbounded Go recursion is observed as "fatal error: stack overflow" quickly
